@@ -190,8 +190,7 @@ def lockfile_obls(prefix):
         _lock(prefix, [0, 10, 1], ["RELOCK", "UNLOCK"]),          # unlock removes the entry
         _lock(prefix, [0, 0, 10, 0], ["REFUSED", "RELOCK", "UNLOCK"], tier="thorough", timeout=1800),
         _lock(prefix, [0, 1], ["REFUSED"], realrbt=1, tier="thorough", timeout=2400),
-        _lock(prefix, [0, 10, 1], ["RELOCK", "UNLOCK"], realrbt=1, tier="thorough", timeout=2400),
-        _lock(prefix, [2, 0, 11, 1], ["REFUSED", "RELOCK", "UNLOCK", "BOTH"], tier="thorough", timeout=1800),
+        _lock(prefix, [2, 0, 11, 1], ["RELOCK", "UNLOCK", "BOTH"], tier="thorough", timeout=1800),
         _lock(prefix, [0, 2, 10, 11], ["UNLOCK", "BOTH"], tier="thorough", timeout=1800),
     ]
 
@@ -313,7 +312,7 @@ META_C20A = {
     "bounds": [
         "C20.a ldb_lock_file/ldb_unlock_file: concrete scripts of 2-4 operations (lock by one of 3 names of which two are the same "
         "(dev,ino), unlock of an earlier handle) with symbolic 64-bit (dev,ino) and every open/stat/fstat/fcntl/close result symbolic: "
-        "quick L0L1, L0L2L0, L0U0L1; thorough L0L0U0L0, L2L0U1L1, L0L2U0U1 and L0L1, L0U0L1 over the real util/rbt.c",
+        "quick L0L1, L0L2L0, L0U0L1; thorough L0L0U0L0, L2L0U1L1, L0L2U0U1 and L0L1 over the real util/rbt.c",
         "OS-level view included: POSIX drops the process' record lock when any descriptor of the file is closed; asserted that a held "
         "file stays fcntl-locked and that a refused attempt opens/closes nothing (finding F4, repaired in /repo 4c3f022; reverting the "
         "repair gives VIOLATION on L0L1 and L0L2L0)",
